@@ -32,7 +32,23 @@ ORDERS = {"given": None, "reversed": lambda k: tuple(-ord(c) for c in k), "sorte
 
 
 def numeric_replay_against_numpy(G, names=None):
-    """-> list of (output, detail) where the real kernel disagrees with NumPy"""
+    """-> list of (output, detail) where the real kernel disagrees with NumPy; finite data first, then NaN/inf
+    injected into the float inputs"""
+    from pv.props.tcommon import special_value_trials
+    import copy
+    how = ""
+    for trial, data in enumerate(special_value_trials(G.data)):
+        G2 = copy.copy(G)
+        G2.data = data
+        bad, how = _numeric_replay_once(G2, names)
+        if bad:
+            for _, det in bad:
+                det["inputs"] = "finite, pairwise distinct" if trial == 0 else f"NaN/inf injected (trial {trial})"
+            return bad, how
+    return [], how
+
+
+def _numeric_replay_once(G, names=None):
     from pv.sem.knlsem import run_kernel_numerically
     want = C.build_numpy(G.prog, G.data)
     bad = []
